@@ -344,6 +344,8 @@ pub struct Driver {
     /// set after a panic: engine state may be inconsistent; rebuild.
     pub dirty: bool,
     pub queries_run: usize,
+    /// hash of the SET / RESET statements executed so far (part of the supervisor's statement key)
+    pub cfg_hash: u64,
 }
 
 impl Driver {
@@ -360,7 +362,7 @@ impl Driver {
         let sue = SingleUserEngine::try_new(exec.clone(), rt).expect("engine");
         sue.register_extension(glaredb_ext_csv::extension::CsvExtension).expect("csv ext");
         sue.register_extension(glaredb_ext_parquet::extension::ParquetExtension).expect("parquet ext");
-        Driver { sue, extra: Vec::new(), fs, exec, horizon: 200_000, dirty: false, queries_run: 0 }
+        Driver { sue, extra: Vec::new(), fs, exec, horizon: 200_000, dirty: false, queries_run: 0, cfg_hash: 0 }
     }
 
     pub fn engine(&self) -> &Engine<VerifExecutor, VerifRuntime> {
@@ -430,7 +432,8 @@ impl Driver {
 
     /// Execute one statement under the given scheduler.
     pub fn run(&mut self, sess: usize, sql: &str, sched: &mut dyn Sched) -> RunResult {
-        let ctx = self.fs.state_hash();
+        // the supervisor's key of a statement: its text, the files it can see and the session settings in effect
+        let ctx = self.fs.state_hash() ^ self.cfg_hash;
         if let Some(kind) = crate::guard::skipped(sql, ctx) {
             let outcome = if kind == "abort" { Outcome::Abort { detail: "the statement killed the process in an earlier attempt of this run (recorded by the supervisor)".into() } } else { Outcome::Hang { detail: "wall limit exceeded inside a single poll in an earlier attempt of this run (recorded by the watchdog)".into() } };
             return RunResult { outcome, stats: RunStats::default() };
@@ -438,6 +441,15 @@ impl Driver {
         crate::guard::enter(sql, ctx);
         let r = self.run_inner(sess, sql, sched);
         crate::guard::leave();
+        let head = sql.trim_start().get(..6).unwrap_or("").to_ascii_uppercase();
+        if (head.starts_with("SET ") || head.starts_with("RESET")) && r.outcome.is_rows() {
+            let mut h = self.cfg_hash ^ 0xcbf29ce484222325;
+            for b in sql.bytes() {
+                h ^= b as u64;
+                h = h.wrapping_mul(0x100000001b3);
+            }
+            self.cfg_hash = h;
+        }
         r
     }
 
